@@ -42,7 +42,8 @@ StepEv == /\ IsEvent("step")
 
 BusReset == /\ IsEvent("busreset")
             /\ pop' = E.signs
-            /\ prev' = [i \in 1..Len(E.signs) |-> Blank]
+            \* signs may have a history of their own before they are put on the bus (then their projection is recorded)
+            /\ prev' = [i \in 1..Len(E.signs) |-> IF "obs" \in DOMAIN E.signs[i] THEN E.signs[i].obs ELSE Blank]
 
 Receiving(o) == o.st \in {"ConfigInProgress", "PixelsInProgress"}
 AddressedKinds == {"Hello", "QueryState", "RequestOperation", "PixelsComplete", "Goodbye"}
